@@ -25,3 +25,24 @@ def pyvc_units(prop, modules):
             units.append(dict(kind="pyvc", mechanism="pyvc (A: VCs from the real AST, unbounded)", name=name, module=m, target=c.target,
                               ckind=c.kind, ordinal=c.ordinal, nth=nth, registry_modules=list(modules)))
     return units
+
+
+def frame_unit(name, files):
+    """global-state frame obligations (vf/pyvc/globalsframe.py) for the listed source files"""
+    return dict(kind="func", mechanism="pyvc frame pass (A: module / class level mutable state is never written)", name=f"frame:{name}", module="vf.pyvc.globalsframe", func="unit",
+                args=dict(files=list(files)))
+
+
+GATE_FILES = ["lightworks/qubit/gates/single_qubit_gates.py", "lightworks/qubit/gates/two_qubit_gates.py", "lightworks/qubit/gates/three_qubit_gates.py"]
+TOMO_FILES = ["lightworks/tomography/state_tomography.py", "lightworks/tomography/process_tomography.py", "lightworks/tomography/process_tomography_li.py",
+              "lightworks/tomography/process_tomography_mle.py", "lightworks/tomography/gate_fidelity.py", "lightworks/tomography/utils.py", "lightworks/tomography/mappings.py"]
+EMU_FILES = ["lightworks/emulator/simulation/sampler.py", "lightworks/emulator/simulation/quick_sampler.py", "lightworks/emulator/simulation/analyzer.py",
+             "lightworks/emulator/simulation/simulator.py", "lightworks/emulator/simulation/probability_distribution.py", "lightworks/emulator/backend/backend.py",
+             "lightworks/emulator/backend/slos.py", "lightworks/emulator/backend/permanent.py", "lightworks/emulator/components/source.py", "lightworks/emulator/components/detector.py"]
+SDK_FILES = ["lightworks/sdk/circuit/circuit.py", "lightworks/sdk/circuit/circuit_utils.py", "lightworks/sdk/circuit/compiler.py", "lightworks/sdk/circuit/components.py",
+             "lightworks/sdk/circuit/parameters.py", "lightworks/sdk/circuit/unitary.py", "lightworks/sdk/state/state.py", "lightworks/sdk/utils/heralding_utils.py",
+             "lightworks/sdk/utils/post_selection.py", "lightworks/sdk/utils/permutation_conversion.py", "lightworks/sdk/utils/matrix_utils.py"]
+CONV_FILES = ["lightworks/qubit/converter/qiskit_convert.py"]
+RECK_FILES = ["lightworks/interferometers/reck.py", "lightworks/interferometers/decomposition.py", "lightworks/interferometers/error_model.py"]
+DISPLAY_FILES = ["lightworks/sdk/visualisation/display.py", "lightworks/sdk/visualisation/draw_circuit_svg.py", "lightworks/sdk/visualisation/draw_circuit_mpl.py",
+                 "lightworks/sdk/visualisation/display_components_svg.py", "lightworks/sdk/visualisation/display_utils.py"]
